@@ -91,7 +91,7 @@ theorem WFp_of {s s' : State}
 /-- the tail of every close: custody out, swap, repay — the position disappears -/
 theorem closeTail_good {w w' : W} {tf : Bool} {r : Nat} (hg : Good w) (h : closeTail w tf = .ok (r, w')) :
     OKp w'.s ∧ WFp w'.s ∧ getMtpL w'.s.mtps w.mtp.key = none ∧ w'.s.mtps = delMtpL w.s.mtps w.mtp.key ∧
-      w'.s.pools = setPoolL w.s.pools w'.pool ∧ w'.pool.sym = w.pool.sym := by
+      w'.s.pools = setPoolL w.s.pools w'.pool ∧ w'.pool.sym = w.pool.sym ∧ w'.s.mtpCount = w.s.mtpCount := by
   unfold closeTail at h
   obtain ⟨w1, hw1, h⟩ := bind_ok h
   obtain ⟨ra, _, h⟩ := bind_ok h
@@ -119,7 +119,7 @@ theorem closeTail_good {w w' : W} {tf : Bool} {r : Nat} (hg : Good w) (h : close
   rw [hw2eq]
   simp only [State.setPool, storePool_pools, storePool_openCount, storePool_mtpCount]
   rw [setPoolL_collapse _ _ _ (by simp)]
-  refine ⟨?_, ?_, getMtpL_del _ _, trivial, rfl, by simp⟩
+  refine ⟨?_, ?_, getMtpL_del _ _, trivial, rfl, by simp, trivial⟩
   · unfold OKp
     simp only []
     apply OKc_trans (sym := w.pool.sym) (p0 := p0) (old := some m0') (new := none) hg.ok hg.wf.syms hp0 (by simp)
@@ -173,12 +173,13 @@ theorem LedgerSame.bank (s : State) (b : Bank) : LedgerSame s { s with bank := b
 structure Frame (s s' : State) (k : Key) (sym : Asset) : Prop where
   mtps : ∀ k', k' ≠ k → getMtpL s'.mtps k' = getMtpL s.mtps k'
   pools : ∀ sym', sym' ≠ sym → getPoolL s'.pools sym' = getPoolL s.pools sym'
+  count : s'.mtpCount = s.mtpCount
 
-theorem Frame.refl (s : State) (k : Key) (sym : Asset) : Frame s s k sym := ⟨fun _ _ => rfl, fun _ _ => rfl⟩
+theorem Frame.refl (s : State) (k : Key) (sym : Asset) : Frame s s k sym := ⟨fun _ _ => rfl, fun _ _ => rfl, rfl⟩
 theorem Frame.trans {a b c : State} {k : Key} {sym : Asset} (h1 : Frame a b k sym) (h2 : Frame b c k sym) : Frame a c k sym :=
-  ⟨fun k' hk => (h2.mtps k' hk).trans (h1.mtps k' hk), fun y hy => (h2.pools y hy).trans (h1.pools y hy)⟩
+  ⟨fun k' hk => (h2.mtps k' hk).trans (h1.mtps k' hk), fun y hy => (h2.pools y hy).trans (h1.pools y hy), h2.count.trans h1.count⟩
 theorem LedgerSame.frame {s s' : State} (h : LedgerSame s s') (k : Key) (sym : Asset) : Frame s s' k sym :=
-  ⟨fun _ _ => by rw [h.mtps], fun _ _ => by rw [h.pools]⟩
+  ⟨fun _ _ => by rw [h.mtps], fun _ _ => by rw [h.pools], h.mtpCount⟩
 
 theorem OKp_congr {s s' : State} (h : OKp s) (hs : LedgerSame s s') : OKp s' := by
   unfold OKp at *; rw [hs.pools, hs.mtps, hs.openCount]; exact h
